@@ -3,6 +3,8 @@ From Coq Require Import ZArith Znumtheory List.
 From NTT Require Import CRT CRTExec CRTClosed CRTRing CRTRingClosed.
 From NTT.gen Require Import Params.
 Import ListNotations.
+From NTT Require GmpSpec GenGmpEq.
+From NTT.gen Require GenGmp.
 Local Open Scope Z_scope.
 
 (* poly2mpz on one coefficient (lifting integers, accumulation, Shoup-style reduction with ONE conditional subtraction):
@@ -79,3 +81,37 @@ Print Assumptions C04_ring_op_open.
 Theorem C04_compat_add_sub_mul : CRTRing.compat Z.add /\ CRTRing.compat Z.sub /\ CRTRing.compat Z.mul.
 Proof. exact (conj CRTRing.compat_add (conj CRTRing.compat_sub CRTRing.compat_mul)). Qed.
 Print Assumptions C04_compat_add_sub_mul.
+
+(* THE BIG-INTEGER FUNCTIONS OF THE SOURCE (include/nfl/gmp.hpp: GMP::GMP(), GMP::poly2mpz, GMP::mpz2poly), translated by tools/cxxgmp2coq.py
+   on every run into gen/GenGmp.v -- an mpz_t is an integer, every GMP call has the meaning GmpSem.v gives it (the GMP manual's), arrays
+   are bounds-checked lists, size_t arithmetic wraps -- for any degree n and any number m of moduli:
+   the translated constructor computes the product Q of the moduli, the shift s, the Shoup value floor(2^s / Q) and the lifting integers
+   of the model; the translated poly2mpz, run on what the constructor left, returns for every coefficient exactly CRTExec.poly2mpz_coef of
+   its column of residues -- the function C04_lift / C04_unique / C04_ring_isomorphism are about; the translated mpz2poly stores
+   CRTExec.mpz2poly_coef.  (That the inverses exist for the tabulated moduli is C04_lift_all_tables.) *)
+Theorem C04_source_lift : GenGmpEq.lift_statement 16 GenGmp.gen_gmp_ctor_u16 GenGmp.gen_poly2mpz_u16 /\
+  GenGmpEq.lift_statement 32 GenGmp.gen_gmp_ctor_u32 GenGmp.gen_poly2mpz_u32 /\ GenGmpEq.lift_statement 64 GenGmp.gen_gmp_ctor_u64 GenGmp.gen_poly2mpz_u64.
+Proof. exact (conj GenGmpEq.source_lift_u16 (conj GenGmpEq.source_lift_u32 GenGmpEq.source_lift_u64)). Qed.
+Print Assumptions C04_source_lift.
+Theorem C04_source_lift_statement : forall w ctor p2m, GenGmpEq.lift_statement w ctor p2m <->
+  (forall (n m : nat) (P L0 op rop0 invs : list Z), (m <= length P)%nat -> length L0 = m ->
+    (forall i, (i < m)%nat -> 1 < nth i (firstn m P) 1) -> shiftQ w (firstn m P) < 2 ^ 62 -> all_some (modinvs (firstn m P)) = Some invs ->
+    length op = (m * n)%nat -> Forall (fun x => 0 <= x) op -> length rop0 = n -> Z.of_nat (m * n) < 2 ^ 61 -> Z.of_nat n < 2 ^ 61 -> Z.of_nat m < 2 ^ 61 ->
+    forall a b c d e : Z, exists (bits b2 q cur t : Z) (res : list Z),
+      let psl := firstn m P in let Q := prod psl in let s := shiftQ w psl in let Ls := map (GmpSpec.Fl m P invs) (seq 0 m) in
+      ctor (Z.of_nat m) P a b c d e L0 = Some (Q, bits, s, 2 ^ s / Q, b2, q, cur, Ls) /\
+      p2m (Z.of_nat n) (Z.of_nat m) s b2 rop0 op Ls (2 ^ s / Q) Q = Some (t, res) /\ length res = n /\
+      forall i, (i < n)%nat -> poly2mpz_coef w psl (GmpSpec.col n m op i) = Some (nth i res 0)).
+Proof. intros w ctor p2m. unfold GenGmpEq.lift_statement. split; intros H; exact H. Qed.
+Print Assumptions C04_source_lift_statement.
+Theorem C04_source_mpz2poly : GenGmpEq.m2p_statement 16 GenGmp.gen_mpz2poly_u16 /\ GenGmpEq.m2p_statement 32 GenGmp.gen_mpz2poly_u32 /\
+  GenGmpEq.m2p_statement 64 GenGmp.gen_mpz2poly_u64.
+Proof. exact (conj GenGmpEq.source_mpz2poly_u16 (conj GenGmpEq.source_mpz2poly_u32 GenGmpEq.source_mpz2poly_u64)). Qed.
+Print Assumptions C04_source_mpz2poly.
+Theorem C04_source_mpz2poly_statement : forall bits m2p, GenGmpEq.m2p_statement bits m2p <->
+  (forall (n nm : nat) (P vals data0 : list Z), length data0 = (nm * n)%nat -> length vals = n -> Z.of_nat (nm * n) < 2 ^ 61 ->
+    (0 < n)%nat -> Z.of_nat n < 2 ^ 61 -> (nm <= length P)%nat -> Forall (fun p => 0 < p < 2 ^ bits) (firstn nm P) ->
+    exists res, m2p (Z.of_nat n) (Z.of_nat nm) P data0 vals = Some res /\ length res = (nm * n)%nat /\
+    forall cm i, (cm < nm)%nat -> (i < n)%nat -> nth (cm * n + i) res 0 = nth cm (mpz2poly_coef (firstn nm P) (nth i vals 0)) 0).
+Proof. intros bits m2p. unfold GenGmpEq.m2p_statement. split; intros H; exact H. Qed.
+Print Assumptions C04_source_mpz2poly_statement.
